@@ -3,13 +3,13 @@
 import json, os, sys
 ROOT = os.path.dirname(os.path.dirname(os.path.abspath(__file__)))
 sys.path.insert(0, ROOT)
-from checks import CHECKS, NOT_APPLICABLE, HOOK_COMMITS
+from checks import CHECKS, NOT_APPLICABLE, HOOK_COMMITS, CLAIMED
 
 props = [json.loads(l) for l in open(os.path.join(ROOT, "properties.jsonl"))]
 ids = [p["id"] for p in props]
 checks = []
 for pid in ids:
-    if pid not in CHECKS:
+    if pid not in CHECKS or pid not in CLAIMED:
         continue
     c = CHECKS[pid]
     checks.append({
@@ -27,7 +27,7 @@ for pid in ids:
         "level_note": c.get("level_note", "Generated-input search only: no claim of absence. Trusted base: " + "; ".join(c.get("assumptions", ["the harness's own reference model"]))),
         "technique": c.get("technique", "property-based testing (rapid) against an independent oracle"),
     })
-na = [{"property_id": pid, "reason": NOT_APPLICABLE.get(pid, "check not built yet in this session (planned in DESIGN.md §4); nothing is claimed")} for pid in ids if pid not in CHECKS]
+na = [{"property_id": pid, "reason": NOT_APPLICABLE.get(pid, "check not built yet in this session (planned in DESIGN.md §4); nothing is claimed")} for pid in ids if pid not in CHECKS or pid not in CLAIMED]
 m = {
     "version": 1,
     "setup_cmd": "./verif setup",
